@@ -66,6 +66,9 @@ def r1_compare(chk, fx):
         else:
             chk.instance("C03/R1", "compare(%s, %s) => %s" % (e, i, kind), n, loc, holds=True)
     chk.floor("C03/R1 compare abstract cases", len(rows), 6)
+    if any((arm or {}).get("collections") for (_, _, arm, _) in rows):
+        # table obtained by evaluating compare on finite maps with one name per case: which name meets which is part of that evaluation
+        return
     # the decision is over the two lookups of the *same* name: both HashMap::get calls take the closure's name parameter
     gets = [c for c in T.calls(T.norm(t["body"])) if T.short(c["fn"], 2) == "HashMap::get"]
     keys = sorted({T.expr_str(T.peel(c["args"][1])) for c in gets})
@@ -308,9 +311,14 @@ def r3_sink(chk, fx):
                      detail=None if ok else "an unknown route-set / error answer would yield an empty or partial set that is then installed")
     chk.floor("C03/R3 sink_error result leaves", len(leaves), 1)
     # downcast target is irrc::Error
-    dc = [c for c in T.calls(T.user_body(t), "downcast_ref")]
-    ok = bool(dc) and all("irrc::Error" in " ".join(c.get("gargs", [])) for c in dc)
-    chk.instance("C03/R3", "the error is classified by downcasting to irrc::Error", t["def"], loc_of(t.get("sp")), holds=ok or not dc,
+    # what is classified is the error handed in, as an irrc::Error — not something dug out of another error type: a resolver that wraps
+    # the IRR error (the filter-set lookup does, with Error::from, before collect_result) thereby makes it fatal, and unwrapping here
+    # would extend the tolerance for single route items to whole objects
+    dc = [c for n2 in sorted(fx.thir) if n2 == cands[0] or n2.startswith(cands[0] + "::{closure")
+          for c in T.find(T.norm(fx.thir[n2]["body"]), "Call") if (c.get("fn") or "").endswith("::downcast_ref")]
+    tys = sorted({(c.get("ty") or "?") for c in dc})
+    ok = bool(dc) and all(ty.replace(" ", "") in ("std::option::Option<&irrc::Error>", "core::option::Option<&irrc::Error>") for ty in tys)
+    chk.instance("C03/R3", "the error is classified by downcasting it to irrc::Error, and to nothing else (%s)" % tys, t["def"], loc_of(t.get("sp")), holds=ok,
                  key="C03/R3 sink_error downcast-type")
 
 
